@@ -59,3 +59,8 @@ claim("C03", "other", "single-commit-point and write-order rules + reader/writer
       "Decides the structural part of crash atomicity: one straight-line root-record write of a fully assembled buffer as the only commit point, after all data in dependency order; Store.size advanced only on success and to offset+length, with the recorded location equal to (write offset, advance length); and on open nine validation atoms (both magics twice, version, length agreement, offset bounds, A9 record-ends-at-cursor) each of whose failing arm leads only to rejection or re-test. Byte-granular torn writes and junk imitating a complete self-consistent record are not decided.",
       "Trusted: go/ssa; the atom recognisers match operand provenance (MagicBeg/MagicEnd globals, binary.Read targets, Store.size loads, rootsLen), not text.",
       "DESIGN.md §4 C03")
+
+claim("C14", "other", "abstract evaluation of encoders/decoders over constants and symbolic lengths; extracted layout tables compared with an independent v4 table",
+      "Decides byte-level conformance to the version-4 layout for all inputs: the layout evaluator replays every codec of the current source (item header, location, node record, root record writer and the three reader stages, item record placement) and the extracted (byte order, width, offset, field) tables must equal an independent v4 table kept in the checker, for both directions; plus Version == 4, the two magic strings assigned only by their initialisers, big-endian everywhere, keyPSize == 4, record-length constants, JSON form of locations, children-before-parent (O4) and the reader's validation atoms (O5). This catches exactly the symmetric edits (field order, width, endianness, magic, version) that round-trip tests cannot see. It does not decide that an independent decoder recovers the flushed state — that also needs C02 and C13.",
+      "Trusted: go/ssa; the v4 table in rules_c14.go was written from the format description (README / property text), not derived from the code.",
+      "DESIGN.md §4 C14")
